@@ -316,8 +316,15 @@ def symbolic_attractor_test(
     # completed and no unprocessed variables remaining.
     all_done = False
 
+    # Set when a whole pass of the main loop changed nothing even though the
+    # forward set can still grow (its growth was declined by the size heuristic
+    # and no further variable can be saturated). The growth must then be
+    # accepted, otherwise the loop would never make progress again.
+    force_forward = False
+
     while not all_done:
         all_done = True
+        made_progress = False
 
         # Saturate reach_set with currently selected variables, but only if
         # it's symbolic size is smaller than that of the avoid set (reach set
@@ -342,8 +349,14 @@ def symbolic_attractor_test(
                     all_variables_done = (
                         len(conflict_vars) == 0 and len(other_vars) == 0
                     )
-                    if no_avoid or avoid_is_larger or all_variables_done:
+                    if (
+                        no_avoid
+                        or avoid_is_larger
+                        or all_variables_done
+                        or force_forward
+                    ):
                         reach_set = updated
+                        made_progress = True
                         saturation_done = False
                         if reach_set.symbolic_size() > 100_000 and sd.config["debug"]:
                             print(
@@ -365,6 +378,7 @@ def symbolic_attractor_test(
                     predecessors = graph.var_pre_out(var, avoid)
                     if not predecessors.is_empty():
                         all_done = False
+                        made_progress = True
                         avoid = avoid.union(predecessors)
                         saturation_done = False
                         if avoid.symbolic_size() > 100_000 and sd.config["debug"]:
@@ -425,6 +439,7 @@ def symbolic_attractor_test(
                 continue
 
             all_done = False
+            made_progress = True
 
             reach_set = reach_set.union(can_go_fwd)
             if avoid is not None:
@@ -444,6 +459,8 @@ def symbolic_attractor_test(
                 )
 
             break
+
+        force_forward = not made_progress
 
     if sd.config["debug"]:
         print(f"[{node_id}] > Reachability completed with {reach_set}.")
